@@ -7,6 +7,7 @@ import SarpyModel.Drivers.Sidd
 import SarpyModel.Drivers.Cphd
 import SarpyModel.Drivers.Codec
 import SarpyModel.Drivers.Geo
+import SarpyModel.Drivers.Remap
 namespace Sarpy.Drivers
 
 def step (line : String) : String :=
@@ -21,6 +22,7 @@ def step (line : String) : String :=
   | "cphd" :: rest => (cphdStep rest).getD "bad-op"
   | "codec" :: rest => (codecStep rest).getD "bad-op"
   | "geo" :: rest => (geoStep rest).getD "bad-op"
+  | "remap" :: rest => (remapStep rest).getD "bad-op"
   | _ => "bad-op"
 
 partial def loop (h : IO.FS.Stream) : IO Unit := do
